@@ -127,7 +127,9 @@ def run_case(ctx, case):
                 cur = before[uid]['attrs']
                 version = rng.choice(rig.VERSIONS)
                 form = rng.choice(('modify', 'modify', 'delete', 'delete', 'set'))
-                if rng.random() < 0.55:
+                if form == 'set' and rng.random() < 0.5:
+                    name = 'Sensitive'          # the one attribute SetAttribute can actually change on this server
+                elif rng.random() < 0.55:
                     name = rng.choice(list(MULTI))
                 else:
                     name = rng.choice(ATTR_MENU).value
